@@ -20,6 +20,13 @@ is a subclass that adds a few things, each fail closed (notes/TRANSLATOR.md, "Ph
   of declared effects / loops / return / raise, and every one must occur exactly once;
 * `"fresh": true` on an effect: the call returns a new list object nobody else holds (the function may append to it);
 * `for it in range(E)` for an integer expression E such as `G - 1` (exact Z subtraction; a negative bound is empty);
+* `"pair": ["A", "B"]` on an effect (instead of `returns`): the call returns a 2-tuple, `a, b = f(...)` binds both;
+* a method effect `<ind>.m` with `"receiver": "ind"` may have a RECORD type as receiver (`parent1.__class__(v)`), and
+  reading a field of a new object (`child1.vector`) does not make the object escape;
+* `"mode": "while_body"` / `"while_test"` + `"carried": "offsprings"`: a function of the shape
+  `xs = []; while TEST: BODY; return xs` (xs is called `carried` in the translation) is translated as two functions: BODY as a function of the carried
+  list (an in-out parameter, listed under `writes`) and TEST as a boolean function of it.  The frame (the three
+  statements) is checked, the iteration itself (repeat BODY while TEST) is not translated;
 * logging calls (`silent`) may be given arithmetic over plain values (`"{}".format(a * b)`).
 
 Everything else is as in py2coq_eff.py.  Stdlib only.
@@ -60,8 +67,15 @@ class RunTranslator(eff.EffTranslator):
         # `"fresh": true` on an effect: the call returns a NEW list object that nobody else holds (the function may
         # append to it); trusted, like the `fresh` flag of an oracle in py2coq.py
         fresh = [d["call"] for d in spec.get("effects", []) if d.get("fresh")]
-        spec2["effects"] = [{k: v for k, v in d.items() if k != "fresh"} for d in spec.get("effects", [])]
+        spec2["effects"] = [{k: v for k, v in d.items() if k not in ("fresh", "pair")} for d in spec.get("effects", [])]
+        for k in ("mode", "carried"):
+            spec2.pop(k, None)
         super().__init__(mod, cls, name, spec2, node, done)
+        for d in spec.get("effects", []):
+            if d.get("pair"):
+                if d.get("returns") or len(d["pair"]) != 2 or d.get("new") or d.get("sets"):
+                    raise Unsupported("effect %s: `pair` stands instead of `returns`" % d["call"], node, self.qual)
+                self.effects[d["call"]].ret = ("prod", self.ptype(d["pair"][0]), self.ptype(d["pair"][1]))
         for f in fresh:
             if not base.is_list(self.effects[f].ret):
                 raise Unsupported("effect %s: `fresh` needs a list as result" % f, node, self.qual)
@@ -116,7 +130,36 @@ class RunTranslator(eff.EffTranslator):
         if isinstance(n, ast.Attribute) and isinstance(n.value, ast.Name) and isinstance(n.ctx, ast.Load) \
                 and (env.get(n.value.id), n.attr) in self.stores:
             raise self.err("read of the stored field %s (stores are events: the function may not read them back)" % n.attr, n)
+        if isinstance(n, ast.Attribute) and isinstance(n.value, ast.Name) and isinstance(n.ctx, ast.Load) \
+                and n.value.id in self.owned and env.get(n.value.id) in self.records \
+                and n.attr in dict(self.records[env[n.value.id]]):
+            # reading a declared field of a new object hands out the field's value, not the object
+            saved = self.owned[n.value.id]
+            try:
+                return super()._expr(n, env, want)
+            finally:
+                self.owned[n.value.id] = saved
         return super()._expr(n, env, want)
+
+    def expr(self, n, env, want=None):
+        if isinstance(n, ast.Attribute) and isinstance(n.value, ast.Name) and n.value.id in self.owned:
+            saved = self.owned[n.value.id]
+            try:
+                return super().expr(n, env, want)
+            finally:
+                if env.get(n.value.id) in self.records and n.attr in dict(self.records[env[n.value.id]]):
+                    self.owned[n.value.id] = saved
+        return super().expr(n, env, want)
+
+    def effect_call(self, n, e, env):
+        if e.receiver is not None and e.receiver in self.records and e.receiver not in self.opaque:
+            # a method of a record-typed local (`parent1.__class__(v)`): the object is the oracle's first argument
+            self.opaque.append(e.receiver)
+            try:
+                return super().effect_call(n, e, env)
+            finally:
+                self.opaque.remove(e.receiver)
+        return super().effect_call(n, e, env)
 
     def iter_spec(self, it, target, env, body_assigned=()):
         # `for it in range(E)` with an integer (Z) expression E, e.g. `range(G - 1)`: Python's range of a negative
@@ -161,6 +204,21 @@ class RunTranslator(eff.EffTranslator):
             self.setup_ok(s)
             self.setup_seen[ast.unparse(s)] = self.setup_seen.get(ast.unparse(s), 0) + 1
             return self.block(rest, env, ctx, k)
+        if isinstance(s, ast.Assign) and len(s.targets) == 1 and isinstance(s.targets[0], ast.Tuple) \
+                and isinstance(s.value, ast.Call) and self.eff_name(s.value.func, env) in self.effects:
+            e = self.effects[self.eff_name(s.value.func, env)]
+            elts = s.targets[0].elts
+            if not (isinstance(e.ret, tuple) and e.ret[0] == "prod") or len(elts) != 2 \
+                    or not all(isinstance(x, ast.Name) for x in elts) or elts[0].id == elts[1].id:
+                raise self.err("tuple assignment from other than a pair effect to two names", s)
+            if self.loop_stack or any(x.id in env or x.id in self.loop_targets for x in elts):
+                raise self.err("tuple assignment inside a loop / to a bound name", s)
+            (x, t), pre = self.with_pre(lambda: self.effect_call(s.value, e, env))
+            env2 = dict(env)
+            env2[elts[0].id], env2[elts[1].id] = t[1], t[2]
+            inner = "let %s := (fst %s) in\nlet %s := (snd %s) in\n%s" % (
+                mangle(elts[0].id), x, mangle(elts[1].id), x, self.block(rest, env2, ctx, k))
+            return self.wrap(pre, inner, ctx, env)
         if isinstance(s, ast.Assign) and len(s.targets) == 1 and isinstance(s.targets[0], ast.Attribute) \
                 and isinstance(s.targets[0].value, ast.Name):
             tgt = s.targets[0]
@@ -196,6 +254,48 @@ function_infos = base.function_infos
 LAST_TRANSLATORS = {}
 
 
+def while_part(node, fspec, qual):
+    """`def f(self, ...): carried = []; while TEST: BODY; return carried` -> a function definition with the carried
+    list as an extra parameter and the body BODY (mode while_body) / `return TEST` (mode while_test)"""
+    import copy
+    carried = fspec.get("carried")
+    body = [st for st in node.body
+            if not (isinstance(st, ast.Expr) and isinstance(st.value, ast.Constant) and isinstance(st.value.value, str))]
+    # the function's own name for the carried list (the spec's name stands for it: an alpha-renaming, made only if the
+    # spec's name occurs nowhere in the function)
+    own = body[0].targets[0].id if len(body) == 3 and isinstance(body[0], ast.Assign) and len(body[0].targets) == 1 \
+        and isinstance(body[0].targets[0], ast.Name) else None
+    if not isinstance(carried, str) or own is None or ast.unparse(body[0]) != "%s = []" % own \
+            or not isinstance(body[1], ast.While) or body[1].orelse or ast.unparse(body[2]) != "return %s" % own:
+        raise Unsupported("%s is not of the shape `xs = []; while ...: ...; return xs`" % qual, node)
+    if own != carried:
+        for nd in ast.walk(node):
+            if (isinstance(nd, ast.Name) and nd.id == carried) or (isinstance(nd, ast.arg) and nd.arg == carried):
+                raise Unsupported("%s uses the spec's name %r for something else than its carried list %r"
+                                  % (qual, carried, own), node)
+        node = copy.deepcopy(node)
+        for nd in ast.walk(node):
+            if isinstance(nd, ast.Name) and nd.id == own:
+                nd.id = carried
+        body = [st for st in node.body
+                if not (isinstance(st, ast.Expr) and isinstance(st.value, ast.Constant) and isinstance(st.value.value, str))]
+    loop = body[1]
+    for nd in ast.walk(ast.Module(body=loop.body, type_ignores=[])):
+        if isinstance(nd, (ast.Break, ast.Continue, ast.Return, ast.While, ast.Yield, ast.YieldFrom)):
+            raise Unsupported("the while body of %s contains %s" % (qual, type(nd).__name__), nd)
+    if carried in [a.arg for a in node.args.args]:
+        raise Unsupported("the carried list %r is a parameter of %s" % (carried, qual), node)
+    new = copy.deepcopy(node)
+    new.args.args.append(ast.arg(arg=carried, annotation=None))
+    if fspec["mode"] == "while_body":
+        new.body = copy.deepcopy(loop.body)
+    else:
+        new.body = [ast.Return(value=copy.deepcopy(loop.test))]
+        ast.copy_location(new.body[0], loop)
+    ast.fix_missing_locations(new)
+    return new
+
+
 def translate_spec(repo, spec):
     """-> (coq text, [{"function", "sha1", "source"}]); raises Unsupported."""
     path = os.path.join(repo, spec["source"])
@@ -216,6 +316,10 @@ def translate_spec(repo, spec):
             raise Unsupported("no typing for %s in the spec" % key)
         if fspec.get("mode") in ("guard", "body"):
             raise Unsupported("guard / body mode belongs to tools/py2coq.py (spec %s)" % key)
+        if fspec.get("mode") in ("while_body", "while_test"):
+            node = while_part(node, fspec, qual)
+        elif fspec.get("mode"):
+            raise Unsupported("mode %r (spec %s)" % (fspec.get("mode"), key))
         ft = RunTranslator(spec["module"], cls or None, name, fspec, node, done)
         ft.shadowed_builtins = base.module_shadows(tree, cls)
         ft.shadowed_extra = eff.module_shadows_extra(tree, cls)
